@@ -81,7 +81,7 @@ def xmdClean (p : Probe) (x : Xmd) : Bool :=
 
 /-- nothing a probe on a NEW executor can see has been left behind -/
 def cleanNew (D : Defaults) (p : Probe) (s : HState) : Bool :=
-  regCleanNew D p s && nsClean p s && xmdClean p s.sharedXmd
+  regCleanNew D p s && nsClean p s
 
 /-- nothing a probe on the EXISTING executor `e` can see has been left behind -/
 def cleanOn (D : Defaults) (p : Probe) (s : HState) (e : Nat) : Bool :=
@@ -106,16 +106,13 @@ def specsOfRun (s : HState) (ex : Exec) (md : List MdItem) : List Spec :=
 /-- Operations after which a probe on a NEW executor is provably unaffected.  Excluded (each with a
 counterexample theorem and a finding):
  * creating an executor of another backend whose defaults the probe looks up;
- * `add_extended_md` on a never-reset executor with a kind the probe's metadata uses (shared default dict);
+   (`add_extended_md` on ANY executor is benign since fix cfca57a: `addXmd_invisible_to_new_executors`)
  * a translation defining an enum below a name the probe resolves (never reset);
  * a translation that does NOT reach `reset()` and declared a method type the probe looks up;
  * a translation reaching `reset()` on another backend whose defaults the probe looks up. -/
 def benignNew (D : Defaults) (p : Probe) (s : HState) : OpO → Bool
   | .new b' => decide (b' = p.b) || p.q.keys.all (fun k => decide (k ∉ dkeys D b'))
-  | .addXmd e x =>
-    match s.execs[e]? with
-    | none => true
-    | some ex => !ex.xmdShared || (mdKinds p.md).all (fun k => decide (k ∉ akeys x))
+  | .addXmd _ _ => true
   | .translate e _ md r =>
     match s.execs[e]? with
     | none => true
@@ -128,15 +125,12 @@ def benignNew (D : Defaults) (p : Probe) (s : HState) : OpO → Bool
 /-- What is needed in addition for a probe on the EXISTING executor `e₀`.  Excluded:
  * a successful translation on another backend when the probe looks up its own backend's defaults
    (the reset installs the other backend's defaults);
- * `add_extended_md` on `e₀` (or on the shared dict `e₀` still uses) with a kind the probe's metadata uses;
+ * `add_extended_md` on `e₀` itself with a kind the probe's metadata uses;
  * a translation on `e₀` that found extended metadata of a kind the probe asks for (never reset);
  * a translation on `e₀` that failed in `write_cpp_files` after appending job-script blocks. -/
 def benignOn (D : Defaults) (p : Probe) (e₀ : Nat) (s : HState) : OpO → Bool
   | .new b' => decide (s.execs.length ≠ e₀) || decide (b' = p.b)   -- `e₀` is an executor of the probe's backend
-  | .addXmd e x =>
-    match s.execs[e]? with
-    | none => true
-    | some ex => (decide (e ≠ e₀) && !ex.xmdShared) || (mdKinds p.md).all (fun k => decide (k ∉ akeys x))
+  | .addXmd e x => decide (e ≠ e₀) || (mdKinds p.md).all (fun k => decide (k ∉ akeys x))
   | .translate e _ md r =>
     match s.execs[e]? with
     | none => true
@@ -336,8 +330,9 @@ def crossBackendReset : (List OpO × Probe) × Nat :=
 def crossBackendNew : List OpO × Probe :=
   ([.new .cmsAod], ⟨.atlas, [], customMuQ, [recoMuColl]⟩)
 
-/-- (d) `add_extended_md` on a never-reset executor writes into the constructor's default dict:
-every executor created later accepts that metadata kind -/
+/-- (d) REPAIRED (fix cfca57a): `add_extended_md` on a never-reset executor used to write into the
+constructor's default dict, so that every executor created later accepted that metadata kind; the
+history is kept as the literal of `shared_default_repaired` -/
 def sharedDefault : List OpO × Probe :=
   ([.new .atlas, .addXmd 0 [("docker", "[\"docker\", \"img\"]")]], ⟨.atlas, [], jetPt, [dockerMd]⟩)
 
@@ -356,9 +351,9 @@ def xmdStays : (List OpO × Probe) × Nat :=
   (([.new .atlas, .translate 0 jetPt [] okRes, .addXmd 0 [("docker", "[\"docker\", \"img\"]")],
      .translate 0 badWrite [] failWriteRes], ⟨.atlas, [], jetPt, [dockerMd]⟩), 0)
 
-/-- (h) the caller's AST object is translated a second time: its `MetaData` nodes were removed by the
-first translation, the declaration `xAOD::Jet::pt → int` is not seen again (history and the probe
-AS SUBMITTED; what the executor translates is `reuseProbe` of it) -/
+/-- (h) REPAIRED (fix 1c4553a): the caller's AST object translated a second time used to have lost
+its `MetaData` nodes (the declaration `xAOD::Jet::pt → int` was not seen again); the history is kept
+as the literal of `reused_ast_repaired` -/
 def reusedAst : (List OpO × Probe) × Nat :=
   (([.new .atlas, .translate 0 jetPt [ptInt] okRes], ⟨.atlas, [], jetPt, [ptInt]⟩), 0)
 
